@@ -77,16 +77,15 @@ Proof. exact straight_line_sound. Qed.
 
 (* ---- objects the API returns are well formed ------------------------------------------------------------ *)
 
-(* Parameter.create: an accepted parameter has lower <= init <= upper — when the bounds given are not NaN
-   (create never looks at them: see Refuted.param_nan_bound_refuted). *)
+(* Parameter.create: an accepted parameter has lower <= init <= upper — no side condition (NaN bounds are
+   refused since /repo caae827). *)
 Theorem param_wf :
-  forall n i l u f p, param_create n i l u f = Some p -> g_bounds_not_nan l u = true -> Wf.param_wf p = true.
+  forall n i l u f p, param_create n i l u f = Some p -> Wf.param_wf p = true.
 Proof. exact param_create_wf. Qed.
 
-(* ... and create refuses everything else: NaN init, init below lower, init above upper. *)
+(* ... and create refuses everything else: NaN init, NaN bound, init below lower, init above upper. *)
 Theorem param_create_complete :
   forall n i l u f,
-    g_bounds_not_nan l u = true ->
     (isnan i = true \/ xle (match l with None => XNegInf | Some x => x end) i = false \/
      xle i (match u with None => XPosInf | Some x => x end) = false) ->
     param_create n i l u f = None.
@@ -95,11 +94,7 @@ Proof. exact param_create_rejects. Qed.
 (* Parameter.replace (hence Parameters.set_initial_estimates / set_fix and the modeling functions built on
    them) never produces an init outside the bounds: it either raises or returns a well-formed parameter. *)
 Theorem replace_preserves_wf :
-  forall p n i l u f q,
-    param_replace p n i l u f = Some q ->
-    isnan (match l with Some x => x | None => p_lower p end) = false ->
-    isnan (match u with Some x => x | None => p_upper p end) = false ->
-    Wf.param_wf q = true.
+  forall p n i l u f q, param_replace p n i l u f = Some q -> Wf.param_wf q = true.
 Proof. exact param_replace_wf. Qed.
 
 (* Parameters.set_initial_estimates (the path of modeling.set_initial_estimates and of
@@ -119,16 +114,23 @@ Theorem names_duplicate_rejected :
   forall l, ~ NoDup (map p_name l) -> params_create l = None.
 Proof. exact params_create_rejects. Qed.
 
-(* RandomVariables.create on a SEQUENCE of distributions: all variable names are pairwise distinct. *)
+(* RandomVariables.create — on a sequence AND on a single distribution (since /repo 1b723c6) — returns an object
+   whose variable names are pairwise distinct. *)
 Theorem rv_names_unique :
   forall ds r, rvs_create_seq ds = Some r -> r = ds /\ NoDup (concat r).
 Proof. exact rvs_create_seq_unique. Qed.
+Theorem rv_names_unique_single :
+  forall d r, rvs_create_single d = Some r -> r = [d] /\ NoDup d.
+Proof. exact rvs_create_single_unique. Qed.
 
-(* RandomVariables + Distribution keeps the names unique when the added names are fresh (the code does not
-   check: see Refuted.rvs_add_refuted). *)
-Theorem rvs_add_preserves_unique :
-  forall r d, rvs_wf r = true -> g_fresh_names r d = true -> rvs_wf (rvs_add r d) = true.
-Proof. exact rvs_add_wf. Qed.
+(* RandomVariables + Distribution goes through create: whenever it returns, ALL names are pairwise distinct — no
+   side condition; and it does return when the added names are fresh. *)
+Theorem rvs_add_unique :
+  forall r d q, rvs_add r d = Some q -> q = r ++ [d] /\ NoDup (concat q).
+Proof. exact ProofsWf.rvs_add_unique. Qed.
+Theorem rvs_add_accepts_fresh :
+  forall r d, rvs_wf r = true -> g_fresh_names r d = true -> rvs_add r d = Some (r ++ [d]).
+Proof. exact rvs_add_accepts. Qed.
 
 (* Model._canonicalize_statements: when the statements are accepted, every free symbol of every right-hand
    side is a parameter / random variable / data column / t (`base_of`), or one of the two exemptions of the
